@@ -370,9 +370,69 @@ def streams(ctx):
     return st
 
 
+# ------------------------------------------------------------------------------------------------ vector bounds
+def count_bounds(ctx):
+    """Messages that carry a vector: the object boundary and the parser agree at every count around the bound.
+
+    For k in {0, 1, max-1, max, max+1}: if the library builds the object of k entries, its serialization parses back to an
+    equal object; and the bytes 'count || entry * k', assembled here, are accepted by the parser exactly when the object
+    of k entries is one the library builds."""
+    from btclib.block import BlockHeader
+    from btclib.p2p.address import Addr, TimestampedNetworkAddress
+    from btclib.p2p.addrv2 import AddrV2, NetworkAddressV2
+    from btclib.p2p.inventory import GetData, Headers, Inv, Inventory, NotFound
+    from models.build import block_from, coinbase_tx
+
+    st = Stats()
+    errs = lib_errors()
+    hdr = block_from([coinbase_tx(1, [b"\x51"])], mine=False).header
+
+    def cs(n):
+        return bytes([n]) if n < 0xFD else b"\xfd" + n.to_bytes(2, "little") if n <= 0xFFFF else b"\xfe" + n.to_bytes(4, "little")
+
+    kinds = [("AddrV2", AddrV2, NetworkAddressV2(), 1000), ("Addr", Addr, TimestampedNetworkAddress(), 1000), ("Inv", Inv, Inventory(1, bytes(range(32))), 50000),
+             ("GetData", GetData, Inventory(2, bytes(32)), 50000), ("NotFound", NotFound, Inventory(1, bytes(32)), 50000), ("Headers", Headers, hdr, 2000)]
+    for name, cls, entry, bound in kinds:
+        one = cls([entry]).serialize()
+        entry_bytes = one[1:]
+        # GetData and NotFound are Inv's code under another command name: the 50 000 bound is walked once, on Inv
+        counts = (0, 1, 2, 252, 253) if name in ("GetData", "NotFound") else (0, 1, 2, 252, 253, bound - 1, bound, bound + 1)
+        for k in counts:
+            st.evals += 1
+            st.nontrivial += 1
+            case = {"message": name, "count": k, "bound": bound}
+            try:
+                obj = cls([entry] * k)
+                built = True
+            except errs:
+                built = False
+            wire = cs(k) + entry_bytes * k
+            try:
+                back = cls.parse(wire)
+                parsed = True
+            except errs:
+                parsed = False
+            except Exception as e:  # noqa: BLE001
+                st.violation(f"C05/count-bounds/foreign-exception/{name}", case, repr(e)[:80], "library refusal")
+                continue
+            if built != parsed:
+                st.violation(f"C05/count-bounds/object-and-parser-disagree/{name}", case, {"object": built, "parser": parsed}, "the same verdict")
+                continue
+            if built:
+                if obj.serialize() != wire:
+                    st.violation(f"C05/count-bounds/serialization-differs/{name}", case, obj.serialize()[:12].hex(), wire[:12].hex())
+                if back != obj or back.serialize() != wire:
+                    st.violation(f"C05/count-bounds/round-trip-differs/{name}", case, "differs", "equal")
+            if k in (bound, bound + 1) and built != (k <= bound):
+                st.violation(f"C05/count-bounds/bound-misplaced/{name}", case, built, k <= bound)
+            st.outcomes[(name, built)] += 1
+    return st
+
+
 SUBS = [
     ("neighbourhoods", neighbourhoods),
     ("objects", objects),
+    ("count_bounds", count_bounds),
     ("compact_size", compact_size),
     ("psbt_maps", psbt_maps),
     ("streams", streams),
